@@ -8,7 +8,7 @@ FAIL = {
     'C08': ('lex', 'grammar', 'accept'),
     'C09': ('vars', 'free', 'leak'),
     'C03': ('sem', 'no-result'),
-    'C04': ('sem', 'no-result'),
+    'C04': ('sem', 'no-result', 'leak'),
     'C05': ('sem', 'no-result'),
     'C06': ('sem', 'no-result'),
     'C07': ('clause', 'no-result', 'rows', 'truevars'),
@@ -47,6 +47,7 @@ TEXT_RULE = {
     'tok': 'exhaustive: all strings of length <=4 (thorough <=5) over a 22-character alphabet with one character per alternation/boundary of the tokenizer regex (letters, digit, quote, underscore, space, double quote, braces, < = > - ! & | ( [ , #, a non-ASCII letter, a non-ASCII digit, NUL); every keyword/symbol spelling alone and in all adjacent and spaced pairs; plus seeded token soups, spelling soups, random Unicode, mutated formulas, a third of them under a random ordering with sparse distinct ids',
     'parse': 'exhaustive: every token sequence of length <=3 over the full 36-token alphabet and of length 4 (thorough: 5) over a 20-token reduced alphabet (thorough: length 4 over the full alphabet), rendered to text; plus seeded grammar-directed random formulas (all constructs, all spellings, random whitespace/comments), half of them with 1-3 token-level mutations (drop/insert/swap/replace)',
     'eval': 'the same exhaustive token sequences evaluated (result diagram, vars, free_vars); the counting-constant boundary grid; plus seeded random formulas <= depth 4 over <=6 names with shadowing, binder-only names, monotone-by-construction nested/mixed fixed points, counting over compound operands, constants up to 2^64-1, a third of them under an API ordering with sparse distinct ids incl. unused names',
+    'evalq': 'language-level quantifiers: all 85 variable lists of length <=3 over four names (order, repetition, names absent from the body) x {exists, forall} x 9 bodies, each conjoined with its body; a third also bare, inside an lfp and a gfp, and under an API ordering with gaps',
     'evalwide': 'sizes beyond the small spaces: conjunction, disjunction, xor chains, quantifier lists, a De Morgan equivalence, reversed first-appearance order and a 2n-deep nesting over n = 32, 33, 64, 65, 70, 129 variables (thorough up to 257); counting over lists of 8, 11, 14 operands; seeded random fixed-point-free formulas of depth 4 over 20 names',
     'evalord': 'API orderings with gaps: 8 formulas x every injective assignment of ids 0..5 to every subset of <=3 of the names a,b,c,d (685 orderings), incl. formulas with up to five unlisted variables; result, vars, free_vars, names compared, and the answer is compared BY NAME with the default-order answer',
     'evalc': 'counting grid: 5 comparisons x 10 constants (0..4, 2^63-2 .. 2^63, 2^64-2, 2^64-1) x 6 operand lists, 5x5 list-vs-list grid; plus seeded random formulas containing a counting comparison',
@@ -55,7 +56,7 @@ TEXT_RULE = {
 
 
 def text(parts, exhaustive=True):
-    ops = {'tok': ['tok'], 'parse': ['parse'], 'eval': ['eval'], 'evalc': ['eval'], 'evalfp': ['eval'], 'evalord': ['eval'], 'evalwide': ['eval']}
+    ops = {'tok': ['tok'], 'parse': ['parse'], 'eval': ['eval'], 'evalc': ['eval'], 'evalfp': ['eval'], 'evalord': ['eval'], 'evalwide': ['eval'], 'evalq': ['eval']}
     return dict(suite='text', parts=parts, profile='release', exhaustive=exhaustive,
                 corpus_ops=sorted(set(o for p in parts for o in ops[p])),
                 rule='; '.join('%s: %s' % (p, TEXT_RULE[p]) for p in parts))
@@ -85,7 +86,7 @@ GEN_RULE = {
 
 
 def gen(parts):
-    ops = {'queens': ['queens', 'queensbig', 'queensmodels'], 'sudoku': ['sudoku'], 'clique': ['clique', 'cliquemodels'],
+    ops = {'queens': ['queens', 'queensbig', 'queensmodels', 'queenssols'], 'sudoku': ['sudoku'], 'clique': ['clique', 'cliquemodels'],
            'graph': ['graphcheck', 'convert', 'colors']}
     return dict(suite='gen', parts=parts, profile='release', bins='debug', exhaustive=True,
                 corpus_ops=[o for p in parts for o in ops[p]],
@@ -94,7 +95,7 @@ def gen(parts):
 
 PROPS = {
     'C02': dict(suites=[bdd(['conn', 'quant', 'count', 'fp', 'model', 'retain', 'clean', 'mixed', 'wide'])]),
-    'C01': dict(suites=[text(['tok', 'parse', 'eval', 'evalfp', 'evalwide'])]),
+    'C01': dict(suites=[text(['tok', 'parse', 'eval', 'evalfp', 'evalwide', 'evalq'])]),
     'C08': dict(suites=[text(['tok', 'parse'])]),
     'C09': dict(suites=[text(['eval', 'evalwide'])]),
     'C10': dict(suites=[cli(['grid', 'order', 'size', 'random'])]),
@@ -114,7 +115,7 @@ PROPS = {
     'C17': dict(suites=[gen(['sudoku'])]),
     'C18': dict(suites=[gen(['graph'])]),
     'C03': dict(suites=[bdd(['conn', 'wide'])]),
-    'C04': dict(suites=[bdd(['quant', 'wide'])]),
+    'C04': dict(suites=[bdd(['quant', 'wide']), text(['evalq', 'evalfp'])]),
     'C05': dict(suites=[bdd(['count', 'wide']), text(['evalc'])]),
     'C06': dict(suites=[bdd(['fp']), text(['evalfp'], exhaustive=False)]),
     'C07': dict(suites=[bdd(['model', 'wide']), cli(['grid'])]),
